@@ -1,7 +1,8 @@
 # C08 - every incoming IQ request is answered exactly once; responses are never answered
 BASE = ['src/base/QXmppIq.cpp', 'src/base/QXmppStanza.cpp', 'src/base/QXmppUtils.cpp', 'src/base/QXmppElement.cpp', 'src/base/QXmppNonza.cpp']
+IQH_TUS = BASE + ['src/client/QXmppIqHandling.cpp', 'src/client/QXmppClientExtension.cpp', 'src/base/QXmppVersionIq.cpp', 'src/base/QXmppEntityTimeIq.cpp']
 MGR_TUS = BASE + ['src/client/QXmppIqHandling.cpp', 'src/client/QXmppClientExtension.cpp', 'src/base/QXmppVCardIq.cpp', 'src/base/QXmppRosterIq.cpp',
-                  'src/base/QXmppDiscoveryIq.cpp', 'src/base/QXmppVersionIq.cpp', 'src/base/QXmppEntityTimeIq.cpp', 'src/base/QXmppDataForm.cpp']
+                  'src/base/QXmppDiscoveryIq.cpp', 'src/base/QXmppDataForm.cpp']
 CLI_TUS = BASE + ['src/client/QXmppClient.cpp', 'src/client/QXmppOutgoingClient.cpp', 'src/client/QXmppClientExtension.cpp', 'src/base/QXmppStreamManagement.cpp', 'src/base/QXmppStreamFeatures.cpp']
 MODELS = ['qt_core.c', 'qt_list.c', 'qt_dom.c', 'qt_object.c', 'c08_models.c']
 def I(name, **kw):
@@ -9,9 +10,15 @@ def I(name, **kw):
 SPEC = dict(
     property='C08',
     groups=[
+        dict(name='iqh', harness='h_iqh.cpp', tus=IQH_TUS, models=MODELS, shadow_task=True,
+             instances=[I('iqh_' + n) for n in ('check_req', 'check_resp', 'check_noiq', 'reply', 'handle_result', 'handle_error', 'handle_erroriq', 'handle_resp')] +
+                       [I('mgr_%s_%s' % (m, k)) for m in ('version', 'time') for k in ('req', 'resp')]),
         dict(name='mgr', harness='h_mgr.cpp', tus=MGR_TUS, models=MODELS + ['c08_mgr.c'], shadow_task=True,
-             instances=[I('iqh_check'), I('iqh_check_noiq'), I('iqh_reply'), I('iqh_handle_result'), I('iqh_handle_error'), I('iqh_handle_erroriq'), I('iqh_handle_resp')] +
-                       [I('mgr_%s_%s' % (m, k)) for m in ('version', 'time', 'disco', 'vcard', 'roster') for k in ('req', 'resp')]),
+             instances=[I('mgr_%s_%s' % (m, k)) for m in ('disco', 'vcard', 'roster') for k in ('req', 'resp')]),
+        # demonstrations of known findings: run only while the key is listed in /verif/known_findings.txt
+        dict(name='kf', harness='h_mgr.cpp', tus=MGR_TUS, models=MODELS + ['c08_mgr.c'], shadow_task=True, cxxdefs={'C08_DEMO': 1},
+             instances=[I('kf_vcard_request', known_finding='vcard_request_swallowed'), I('kf_roster_get', known_finding='roster_get_swallowed'),
+                        I('kf_roster_ack_to', known_finding='roster_ack_to_missing')]),
         dict(name='client', harness='h_client.cpp', tus=CLI_TUS, models=MODELS + ['c08_client.c'], shadow_task=True, loop_bounds={r'^_ZNSt6ranges14__copy_or_move': 110},
              instances=[I('cli_' + n) for n in ('inject_req', 'inject_resp', 'inject_e2ee_req', 'inject_e2ee_resp', 'inject_noiq', 'stream_req', 'stream_resp', 'fallback_req', 'fallback_resp')]),
     ],
